@@ -10,6 +10,7 @@ mod mem;
 mod rt;
 mod cpubus;
 mod lcd;
+mod kbd;
 
 use std::io::{self, BufRead, Write};
 use std::sync::atomic::{AtomicU64, Ordering};
@@ -59,6 +60,7 @@ fn main() {
         "rt" => rt::main(),
         "cpubus" => cpubus::main(),
         "lcd" => lcd::main(),
+        "kbd" => kbd::main(),
         _ => {
             eprintln!("usage: vrt <exec|...>");
             std::process::exit(64);
